@@ -704,7 +704,8 @@ pub fn codec_parse(a: &Args) {
             dev_nonce: DevNonce::from_wire_bytes(rng.r#gen()),
         };
         let mut buf = [0u8; 23];
-        let b = jr.build_into(&mut buf, &DefaultCrypto::new(&AES128(key))).unwrap().to_vec();
+        // (a builder that refuses or panics here is C01's business: build_jr events; nothing to parse then)
+        let Ok(Ok(b)) = catch(|| jr.build_into(&mut buf, &DefaultCrypto::new(&AES128(key))).map(|b| b.to_vec())) else { continue };
         out.emit(&ev_parse(&b));
         if let Some(e) = ev_jr_mic(&b, &key) {
             out.emit(&e);
